@@ -5,7 +5,8 @@ inductive St where
   | idle
   | pool (p : Pool) (m : Links) (head : Nat)   -- list model and the `next`-pointer model side by side
   | ipool (p : IPool)
-  | sop (p : SOP)
+  | sop (st : Nat) (p : SOPx) (zt : List (Nat × Nat × Nat))  -- sizeof(storage_type), pool, zone table
+  | mpool (m : Links) (s : MState) (zt : List (Nat × Nat × Nat))  -- several zones: (base, cells, elemsz)
   | heap (cfg : Cfg) (h : Heap) (slots : List (Nat × Nat))   -- slot ↦ payload offset
 
 def optS : Option Nat → String
@@ -33,6 +34,28 @@ def availBoth (p : Pool) (m : Links) (head : Nat) : String :=
   let a := slistSize m head (p.free.length + 2)
   if a = p.avail then toString a else s!"{a} MISMATCH {p.avail}"
 
+/-- base address the driver gives to the next zone (zones are laid out one
+behind the other with a gap; address 0..7 is the list head of `mpool` cases) -/
+def nextBase (zt : List (Nat × Nat × Nat)) : Nat :=
+  zt.foldl (fun acc (b, n, e) => max acc (b + n * e + 24)) 16
+
+/-- a cell address as `zone:offset` (what the harness prints) -/
+def cellStr (zt : List (Nat × Nat × Nat)) (a : Nat) : String :=
+  let rec go (k : Nat) : List (Nat × Nat × Nat) → String
+    | [] => s!"?{a}"
+    | (b, n, e) :: r => if b ≤ a ∧ a < b + n * e then s!"{k}:{a - b}" else go (k + 1) r
+  go 0 zt
+
+def optCell (zt : List (Nat × Nat × Nat)) : Option Nat → String
+  | none => "null"
+  | some a => cellStr zt a
+
+/-- address of cell `off` of zone `k` -/
+def cellAddr? (zt : List (Nat × Nat × Nat)) (k off : Nat) : Option Nat :=
+  match zt[k]? with
+  | some (b, n, e) => if off < n * e then some (b + off) else none
+  | none => none
+
 def heapLine (ret : String) (h : Heap) (slots : List (Nat × Nat)) : String :=
   let fl := String.join (h.flp.map fun c => s!"({c.1},{c.2})")
   let sorted := slots.foldl (fun acc x => insertSorted x acc) []
@@ -42,6 +65,7 @@ def heapLine (ret : String) (h : Heap) (slots : List (Nat × Nat)) : String :=
 
 def stepLine (st : St) (line : String) : St × String :=
   let bad := (st, "bad-op")
+  let st' := st
   match words line with
   | ["consts"] => (st, "W=64 szt=8 fl=16 sl=8")
   | ["reset", "pool", e, n] =>
@@ -61,9 +85,12 @@ def stepLine (st : St) (line : String) : St × String :=
   | ["reset", "sop", s, a, n] =>
     match s.toNat?, a.toNat?, n.toNat? with
     | some s, some a, some n =>
-      let p := SOP.init s a n
-      (.sop p, s!"{storageSize s a} {p.avail}")
+      let p := SOPx.init s a n
+      let st := storageSize s a
+      (.sop st p [(0, n, st)], s!"{st} {p.sop.avail}")
     | _, _, _ => bad
+  | ["reset", "mpool"] =>
+    (.mpool (slistInit (fun _ => 0) 0) MState.init [], s!"ok {availBoth Pool.init (slistInit (fun _ => 0) 0) 0}")
   | "reset" :: "heap" :: l :: _ =>
     -- an optional 4th word selects the debug / release build of the C code: same model
     match l.toNat? with
@@ -105,15 +132,74 @@ def stepLine (st : St) (line : String) : St × String :=
       | none => bad
     | .ipool p, ["it"] =>
       (st, "it:" ++ String.join (p.iterAll.map fun i => s!" {i}"))
-    | .sop p, ["c"] =>
-      let (r, p') := p.create
-      (.sop p', s!"{optS r} {p'.avail} {p'.objs.length}{if p'.fault then " FAULT" else ""}")
-    | .sop p, ["d", c] =>
-      match c.toNat? with
+    | .sop st p zt, ["c"] =>
+      match sxstep st p .create with
+      | some (p', r) =>
+        let rs := match r with
+          | none => "null"
+          | some a => if a < (match zt with | (_, n, e) :: _ => n * e | [] => 0) then toString a else cellStr zt a
+        (.sop st p' zt, s!"{rs} {p'.sop.avail} {p'.sop.objs.length} {p'.ctor.length} {p'.dtor.length}{if p'.sop.fault then " FAULT" else ""}")
+      | none => (st', "fault")
+    | .sop st p zt, "d" :: cs =>
+      let a? : Option Nat := match cs with
+        | [c] => c.toNat?
+        | [k, off] => match k.toNat?, off.toNat? with
+          | some k, some off => cellAddr? zt k off
+          | _, _ => none
+        | _ => none
+      match a? with
       | some c =>
-        let p' := p.destroy c
-        (.sop p', s!"{p'.avail} {p'.objs.length}{if p'.fault then " FAULT" else ""}")
+        match sxstep st p (.destroy c) with
+        | some (p', _) =>
+          (.sop st p' zt, s!"{p'.sop.avail} {p'.sop.objs.length} {p'.ctor.length} {p'.dtor.length}{if p'.sop.fault then " FAULT" else ""}")
+        | none => (st', "fault")
       | none => bad
+    | .sop st p zt, ["x", n] =>
+      match n.toNat? with
+      | some n =>
+        let b := nextBase zt
+        match sxstep st p (.engage b n) with
+        | some (p', _) => (.sop st p' (zt ++ [(b, n, st)]), s!"{p'.sop.avail}")
+        | none => (st', "fault")
+      | none => bad
+    | .mpool m s zt, ["z", n, e] =>
+      match n.toNat?, e.toNat? with
+      | some n, some e =>
+        let b := nextBase zt
+        match mstep s (.engage b (n * e) e) with
+        | some (s', _) =>
+          let m' := (mstepP m 0 (.engage b (n * e) e)).1
+          (.mpool m' s' (zt ++ [(b, n, e)]), availBoth s'.pool m' 0)
+        | none => (st', "fault")
+      | _, _ => bad
+    | .mpool m s zt, ["a"] =>
+      match mstep s .alloc with
+      | some (s', r) =>
+        let (m', r2) := mstepP m 0 .alloc
+        (.mpool m' s' zt, s!"{optCell zt r}{if r2 != r then " MISMATCH" else ""} {availBoth s'.pool m' 0}")
+      | none => (st', "fault")
+    | .mpool m s zt, ["f", k, off] =>
+      match k.toNat?, off.toNat? with
+      | some k, some off =>
+        match cellAddr? zt k off with
+        | some c =>
+          match mstep s (.free c) with
+          | some (s', _) =>
+            let m' := (mstepP m 0 (.free c)).1
+            (.mpool m' s' zt, availBoth s'.pool m' 0)
+          | none => (st', "fault")
+        | none => (st', "fault")
+      | _, _ => bad
+    | .mpool m s zt, ["in", k, off] =>
+      match k.toNat?, off.toNat? with
+      | some k, some off =>
+        match cellAddr? zt k off with
+        | some c =>
+          let a := s.pool.inFreelist c
+          let b := slistIn m 0 c (s.pool.free.length + 2)
+          (st', (if a then "1" else "0") ++ (if a != b then " MISMATCH" else ""))
+        | none => (st', "fault")
+      | _, _ => bad
     | .heap cfg h slots, ["m", k, n] =>
       match k.toNat?, n.toNat? with
       | some k, some n =>
